@@ -113,6 +113,8 @@ impl Device {
         match op {
             Operation::Lpm => args.is_empty() || self.allow(NoLpmX),
             Operation::Elpm => args.is_empty() || self.allow(NoElpmX),
+            // SPM Z+ is the ESPM instruction
+            Operation::Spm => args.is_empty() || self.allow(NoEspm),
             Operation::Ld | Operation::St | Operation::Ldd | Operation::Std => {
                 args.iter().all(|arg| match arg {
                     InstructionOps::Index(index) => {
